@@ -282,11 +282,18 @@ func runExact(c *hlib.Ctx, n int) {
 			}
 		}
 		var col model3d.Collider
-		switch c.Rng.Intn(3) {
+		switch c.Rng.Intn(5) {
 		case 0:
 			col = model3d.MeshToCollider(model3d.NewMeshTriangles(tris))
 		case 1:
 			col = model3d.GroupedTrianglesToCollider(append([]*model3d.Triangle{}, tris...))
+		case 2, 3:
+			// a hand-built BVH with branches of 2..6 children (bvh_ray_collisions: still every triangle)
+			if len(tris) > 0 {
+				col, _, _, _ = wideBVH3(c, "joinx", tris)
+			} else {
+				col = model3d.GroupedTrianglesToCollider(nil)
+			}
 		default:
 			if len(tris) > 0 {
 				col = model3d.BVHToCollider(model3d.NewBVHAreaDensity(append([]*model3d.Triangle{}, tris...)))
